@@ -1,7 +1,7 @@
 HOOKS = dict(
     guard="verif",
     enable="go build -tags verif (the harness module /verif/harness replaces the btcwallet modules with /repo and its nested modules)",
-    baseline_off_cmd="for m in . walletdb wtxmgr wallet/txauthor wallet/txrules wallet/txsizes; do (cd /repo/$m && go test -vet=off -count=1 -timeout 25m ./...) || exit 1; done",
+    baseline_off_cmd='for m in $(cat /w/out/gomods.txt); do MF=$(cd /repo/$m && . /w/out/goenv.sh && gomodflag); (cd /repo/$m && go test $MF -json -vet=off -count=1 -timeout 25m ./...); done',
     source_commits=["5b644b4", "b6fa4f8", "2d02f0b"],
     add_only=True,
 )
